@@ -266,6 +266,28 @@ func ruleE1(c *Ctx) {
 		fi := c.fi(fn)
 		// sinks: string ==,<,> on values, and time Equal/Before/After
 		var sinks []ssa.Instruction
+		// a same-package helper that does the comparison on values handed to it: the call is the sink
+		var compares func(f *ssa.Function, d int) bool
+		compares = func(f *ssa.Function, d int) bool {
+			res := false
+			allInstrs(f, func(in ssa.Instruction) {
+				switch x := in.(type) {
+				case *ssa.BinOp:
+					if types.Identical(x.X.Type().Underlying(), types.Typ[types.String]) && (x.Op == token.EQL || x.Op == token.LSS || x.Op == token.GTR) {
+						_, px := x.X.(*ssa.Parameter)
+						_, py := x.Y.(*ssa.Parameter)
+						if px && py {
+							res = true
+						}
+					}
+				case *ssa.Call:
+					if callee := helperCallee(f, &x.Call); callee != nil && d < 2 && compares(callee, d+1) {
+						res = true
+					}
+				}
+			})
+			return res
+		}
 		allInstrs(fn, func(in ssa.Instruction) {
 			switch x := in.(type) {
 			case *ssa.BinOp:
@@ -275,6 +297,9 @@ func ruleE1(c *Ctx) {
 					}
 				}
 			case *ssa.Call:
+				if callee := helperCallee(fn, &x.Call); callee != nil && compares(callee, 0) {
+					sinks = append(sinks, in)
+				}
 				if f := x.Call.StaticCallee(); f != nil && f.Signature.Recv() != nil && isNamed(f.Signature.Recv().Type(), "time", "Time") && (f.Name() == "Equal" || f.Name() == "Before" || f.Name() == "After") {
 					sinks = append(sinks, in)
 				}
